@@ -45,14 +45,20 @@ def _bind(a, k):
 
 
 def _total(vals):
-    return ((vals[4] * 60 + vals[5]) * 60 + vals[6]) * US + vals[7]
+    if all(type(v) is int for v in vals[4:]):
+        return ((vals[4] * 60 + vals[5]) * 60 + vals[6]) * US + vals[7]
+    import fractions
+
+    F = fractions.Fraction
+    t = ((F(vals[4]) * 60 + F(vals[5])) * 60 + F(vals[6])) * US + F(vals[7])      # exact value of the (binary) float arguments
+    return int(t) if t.denominator == 1 else t
 
 
 def _eligible(x, vals):
     if any(vals[:4]):
         return False
-    if not all(type(v) is int for v in vals[4:]):
-        return False
+    if not all(type(v) in (int, float) for v in vals[4:]) or type(_total(vals)) is not int:
+        return False            # only amounts that are a whole number of microseconds (floats: exact binary fractions)
     k = judge.zkind(x)
     if k[0] == "foreign":
         return False
@@ -168,7 +174,7 @@ def cases(M):
         zones = gen.hostile()[M.shard::M.nshards]
     else:
         zones = gen.shard_zones(M)
-    vias = ["add", "add_split", "sub", "op+", "op-", "radd", "td_add"]
+    vias = ["add", "add_split", "sub", "op+", "op-", "radd", "td_add", "add_float"]
     for zn in zones:
         z = tzdb.Z.get(zn)
         for i, (t, ob, oa, _) in enumerate(z.trans):
@@ -246,6 +252,17 @@ def run(M, c):
             h, m, s, us = _split(r, -tot)
             y = x.subtract(hours=h, minutes=m, seconds=s, microseconds=us)
             back = y.add(hours=h, minutes=m, seconds=s, microseconds=us)
+        elif via == "add_float":
+            # amounts given as floats (seconds=0.5, hours=1.25: exact binary fractions) together with a microseconds argument
+            q = r.choice((4, 2, 8))
+            us = tot % (US // q)
+            secs = (tot - us) / US                  # a multiple of 1/q second: exact as a float below 2^53/q
+            if abs(tot) > 2**40 or float(secs) * US != tot - us:
+                y = x.add(microseconds=tot)
+                back = y.subtract(microseconds=tot)
+            else:
+                y = x.add(seconds=float(secs), microseconds=us)
+                back = y.subtract(seconds=float(secs), microseconds=us)
         else:
             d = dt.timedelta(microseconds=tot)
             if via == "op+":
